@@ -1,7 +1,7 @@
 """C08 — constant time: no branch or address depends on key, tweak, data or counter."""
 from ..build import config_name
 from ..ir import Program, indirect_targets
-from ..taint import Taint, L_FIELDS
+from ..taint import Taint, L_FIELDS, type_hints
 from .common import construct, fsite
 
 TITLE = ("Security-type (information-flow) check over the LLVM IR of every function of the library, in the source-shaped "
@@ -19,7 +19,12 @@ RULES = ("R1", "R2", "R3", "R4", "R5", "R6", "R7", "R8")
 def run_one(ctx, rep, cfg, shape, prog=None, record=True):
     cn = "%s/%s" % (config_name(cfg), shape)
     prog = prog or ctx.prog(cfg, shape)
-    T = Taint(prog, lambda f, i: indirect_targets(prog, f, i))
+    hints = None
+    if shape != "O0" and record:
+        # optimised IR may address a context through untyped byte offsets only; the unoptimised shape of the same
+        # function still names the struct type behind obj->ctx
+        hints = type_hints(ctx.prog(cfg, "O0"))
+    T = Taint(prog, lambda f, i: indirect_targets(prog, f, i), hints)
     by = {}
     for x in T.findings:
         by.setdefault((x["func"].key, x["rule"]), []).append(x)
